@@ -336,6 +336,36 @@ func c18Enumerate(n int, selfLoops bool, variants bool, yield func(idx int64, c 
 					}
 					idx++
 				}
+				// two different dangling references in one job (both in front, around, both at the
+				// back), and one in each of two jobs: every one of them is reported
+				for form := 0; form < 3; form++ {
+					nn := make([][]string, n)
+					copy(nn, o)
+					switch form {
+					case 0:
+						nn[i] = append([]string{"Ghost", "Phantom"}, o[i]...)
+					case 1:
+						nn[i] = append(append([]string{"Ghost"}, o[i]...), "Phantom")
+					case 2:
+						nn[i] = append(append([]string{}, o[i]...), "Ghost", "Phantom")
+					}
+					c := &c18Case{N: n, Needs: nn, Desc: fmt.Sprintf("n=%d mask=%#x two dangling job=%d form=%d", n, mask, i, form)}
+					if !yield(idx, c) {
+						return
+					}
+					idx++
+				}
+				for j := i + 1; j < n; j++ {
+					nn := make([][]string, n)
+					copy(nn, o)
+					nn[i] = append(append([]string{}, o[i]...), "Ghost")
+					nn[j] = append([]string{"Phantom"}, o[j]...)
+					c := &c18Case{N: n, Needs: nn, Desc: fmt.Sprintf("n=%d mask=%#x dangling jobs=%d,%d", n, mask, i, j)}
+					if !yield(idx, c) {
+						return
+					}
+					idx++
+				}
 				// one duplicate (re-cased) of each existing entry appended
 				for k := range o[i] {
 					nn := make([][]string, n)
@@ -377,7 +407,7 @@ func TestVerifC18(t *testing.T) {
 		r.HarnessError("expected >= 2 map-order sites in rule_job_needs.go, found %d", len(sites))
 		return
 	}
-	r.Extra["rule"] = "every directed graph on <=4 jobs (thorough: + loop-free graphs on 5 jobs) x needs-entry orders x one dangling/duplicate entry x every iteration order of the rule's nodes map (Engine A map-order choices at the sites of rule_job_needs.go, deviation budget 1, thorough 2 for <=3 jobs); class = (cyclic|acyclic|dangling|dup) x printed cycle length; non-trivial = class other than acyclic-clean"
+	r.Extra["rule"] = "every directed graph on <=4 jobs (thorough: + loop-free graphs on 5 jobs) x needs-entry orders x {one dangling, two dangling in one job (3 placements), one dangling in each of two jobs, one duplicate} entry x every iteration order of the rule's nodes map (Engine A map-order choices at the sites of rule_job_needs.go, deviation budget 1, thorough 2 for <=3 jobs); class = (cyclic|acyclic|dangling|dup) x printed cycle length; non-trivial = class other than acyclic-clean"
 	r.Extra["assumptions"] = []string{"job ids drawn from 5 fixed spellings with mixed case", "needs graphs with more than 5 jobs are not explored"}
 	maxFull := 4
 	r.Bounds["jobs_all_graphs"] = maxFull
